@@ -310,6 +310,21 @@ pub fn random_behaviour(r: &mut Rng, t: &mut Trace, steps: usize) {
             }
         }
     }
+    // a zero spread limit is a limit: on every funded pair, in both directions (one of them arrives through the cw20
+    // hook on mixed pairs), a trade with visible spread and max_spread = 0 must be refused, with and without a belief price
+    for i in 0..np {
+        let (a0, a1) = pair_infos(&w, i);
+        let paddr = w.pairs[i].addr.clone();
+        for (offer, other) in [(a0.clone(), a1.clone()), (a1.clone(), a0.clone())] {
+            let x = balance(&w, &offer, &paddr);
+            let y = balance(&w, &other, &paddr);
+            if x < 1000 || y < 1000 { continue; }
+            let amount = x / 20 + 1;
+            let bp = if r.chance(1, 2) { nul() } else { st(((x as f64 / y as f64) * 1e18) as u128 + 1) };
+            let op = op_swap(&w, i, "carol", &offer, amount, bp, st(0), nul());
+            t.run(&mut w, op);
+        }
+    }
     // one more pair created inside the observed history, with an explicit commission rate (zero every other time):
     // the rate a creator asks for is the rate the pair charges
     {
